@@ -184,16 +184,16 @@ type refPool struct {
 }
 
 type refPos struct {
-	id     uint64
-	owner  int
-	pool   *refPool
-	lower  int64
-	upper  int64
-	liq    osmomath.Dec
-	join   time.Time
-	group  int  // sibling group (created back-to-back, same range); 0 none
-	clean  bool // not modified (no claim/add/withdraw/transfer) since creation
-	never  bool // price has never been inside the range since creation
+	id    uint64
+	owner int
+	pool  *refPool
+	lower int64
+	upper int64
+	liq   osmomath.Dec
+	join  time.Time
+	group int  // sibling group (created back-to-back, same range); 0 none
+	clean bool // not modified (no claim/add/withdraw/transfer) since creation
+	never bool // price has never been inside the range since creation
 	// spread ledger
 	ent    map[string]*rat // exact entitlement accrued since last claim
 	tol    *rat            // tolerance accrued (truncation of growth per unit liquidity)
@@ -203,12 +203,12 @@ type refPos struct {
 }
 
 type world struct {
-	run   *simcore.Run
-	n     *simchain.Node
-	users int
-	pools []*refPool
-	pos   map[uint64]*refPos
-	group int
+	run         *simcore.Run
+	n           *simchain.Node
+	users       int
+	pools       []*refPool
+	pos         map[uint64]*refPos
+	group       int
 	lastCreated struct {
 		block int64
 		pool  uint64
